@@ -87,6 +87,44 @@ class Obj(object):
             raise InterpTypeError("'%s' object is not callable" % self.cls.name)
         return self.interp.call_dunder(self, '__call__', *args, **kwargs)
 
+    # objects meant as keys - dataclasses with eq, classes that define __hash__ - behave as keys in the dicts and sets of the
+    # analysed program (which are host dicts and sets); every other object keeps identity semantics, as in python
+    def _key_like(self):
+        I = self.interp
+        if I is None:
+            return None
+        opts = [c.dataclass_options() for c in self.cls.mro()]
+        if any(o is not None and o.get('eq', True) for o in opts) and not I.has_dunder(self, '__eq__'):
+            return 'dataclass'
+        if I.has_dunder(self, '__hash__') and I.has_dunder(self, '__eq__'):
+            return 'dunder'
+        return None
+
+    def __eq__(self, other):
+        kind = self._key_like()
+        if kind is None or not isinstance(other, Obj):
+            return self is other
+        r = self.interp.compare(ast.Eq(), self, other)
+        if not isinstance(r, bool):
+            raise AnalysisError('equality of key objects of class %s is not a plain truth value' % self.cls.name)
+        return r
+
+    def __ne__(self, other):
+        return not self.__eq__(other)
+
+    def __hash__(self):
+        kind = self._key_like()
+        if kind == 'dunder':
+            return int(self.interp.call_dunder(self, '__hash__'))
+        if kind == 'dataclass':
+            opts = {}
+            for c in reversed(self.cls.mro()):
+                opts.update(c.dataclass_options() or {})
+            if not opts.get('frozen') and not opts.get('unsafe_hash'):
+                raise InterpTypeError("unhashable type: '%s'" % self.cls.name)
+            return hash(tuple(self.interp.builtins['hash'](self.attrs.get(f[0])) for f in self.cls.dataclass_fields()))
+        return id(self) >> 4
+
 
 class ClassRef(object):
     def __init__(self, interp, cls):
@@ -219,6 +257,13 @@ class Frame(object):
         return False, None
 
 
+class _GlobalOwner(object):
+    """Frame-like owner of a name declared `global`: its environment is the namespace of the module."""
+
+    def __init__(self, ns):
+        self.env = ns.values
+
+
 class ModuleNS(object):
     """Lazily evaluated module globals."""
 
@@ -318,6 +363,8 @@ class Interp(object):
             text = ast.unparse(d)
             if text in ('property', 'staticmethod', 'classmethod') or text.endswith(('.setter', '.getter')):
                 continue
+            if text.split('.')[-1] == 'cached_property' and getattr(fn, 'owner', None) is not None:
+                continue              # resolved by the class model (kind 'cachedprop')
             dec = self.eval(d, fr)
             if not callable(dec):
                 raise self.err('decorator %s is not callable' % text)
@@ -388,13 +435,50 @@ class Interp(object):
                 obj.attrs[k] = v
             return obj
         r = cls.lookup('__init__')
+        fields = cls.dataclass_fields()
         if r is not None:
             kind, node, owner = r
             fn = self.closure_for(owner.module, node, owner)
             fn(obj, *args, **kwargs)
+        elif fields is not None:
+            self.dataclass_init(obj, cls, fields, args, kwargs)
         elif args or kwargs:
             raise InterpTypeError('%s() takes no arguments' % cls.name)
         return obj
+
+    def dataclass_init(self, obj, cls, fields, args, kwargs):
+        """the __init__ a @dataclass generates: positional by field order, keywords by name, defaults / default factories,
+        then __post_init__"""
+        from .libmodels import DataclassField
+        if len(args) > len(fields):
+            raise InterpTypeError('%s.__init__() takes %d positional arguments but %d were given' % (cls.name, len(fields) + 1, len(args) + 1))
+        kwargs = dict(kwargs)
+        for i, (name, default, owner) in enumerate(fields):
+            spec = None
+            if default is not None:
+                fr = Frame(owner.module)
+                spec = self.eval(default, fr)
+            if isinstance(spec, DataclassField) and not spec.init:
+                if name in kwargs:
+                    raise InterpTypeError("%s.__init__() got an unexpected keyword argument '%s'" % (cls.name, name))
+                val = spec.make(self, cls, name)
+            elif i < len(args):
+                if name in kwargs:
+                    raise InterpTypeError("%s.__init__() got multiple values for argument '%s'" % (cls.name, name))
+                val = args[i]
+            elif name in kwargs:
+                val = kwargs.pop(name)
+            elif isinstance(spec, DataclassField):
+                val = spec.make(self, cls, name)
+            elif default is not None:
+                val = spec
+            else:
+                raise InterpTypeError("%s.__init__() missing 1 required positional argument: '%s'" % (cls.name, name))
+            obj.attrs[name] = val
+        if kwargs:
+            raise InterpTypeError("%s.__init__() got an unexpected keyword argument '%s'" % (cls.name, sorted(kwargs)[0]))
+        if cls.lookup('__post_init__') is not None:
+            self.getattr(obj, '__post_init__')()
 
     def class_attr_value(self, owner, node, name):
         """Evaluate (once) the right hand side of a class level assignment."""
@@ -435,6 +519,15 @@ class Interp(object):
             if via_instance is None:
                 return True, PropRef(self, cls, attr, fn)
             return True, fn(via_instance)
+        if kind == 'cachedprop':
+            # functools.cached_property: computed at the first read and kept in the instance dictionary from then on
+            # (getattr finds it there before it comes here again)
+            fn = self.closure_for(owner.module, node, owner)
+            if via_instance is None:
+                return True, fn
+            val = fn(via_instance)
+            via_instance.attrs[attr] = val
+            return True, val
         if kind in ('method',):
             fn = self.closure_for(owner.module, node, owner)
             if via_instance is None or raw:
@@ -541,6 +634,8 @@ class Interp(object):
 
     def setattr(self, obj, attr, value):
         if isinstance(obj, Obj):
+            if any((c.dataclass_options() or {}).get('frozen') for c in obj.cls.mro()):
+                raise InterpRaise("cannot assign to field '%s'" % attr, 'AttributeError')
             r = obj.cls.lookup(attr, want_setter=True)
             if r is not None:
                 kind, node, owner = r
@@ -921,8 +1016,119 @@ class Interp(object):
                 fr.nonlocals[name] = f
             return
         if T is ast.Global:
-            raise self.err('global statement not supported')
+            # the name is bound in (and read from) the namespace of the module
+            ns = self.ns(fr.module)
+            for name in st.names:
+                fr.nonlocals = getattr(fr, 'nonlocals', {})
+                fr.nonlocals[name] = _GlobalOwner(ns)
+            return
+        if T is ast.Match:
+            subject = self.eval(st.subject, fr)
+            for case in st.cases:
+                binds = {}
+                if self.match_pattern(case.pattern, subject, binds, fr):
+                    for k_, v_ in binds.items():
+                        self.bind_name(fr, k_, v_)
+                    if case.guard is not None and not self.truth(self.eval(case.guard, fr), case.guard, fr):
+                        continue
+                    yield from self.exec_block(case.body, fr)
+                    return
+            return
         raise self.err('unsupported statement %s' % T.__name__)
+
+    def match_pattern(self, p, subject, binds, fr):
+        """Structural pattern matching (PEP 634) on concrete python values and objects of the package."""
+        T = type(p)
+        if T is ast.MatchValue:
+            want = self.eval(p.value, fr)
+            plain = (int, float, complex, str, bytes, tuple, list, dict, Fr, type(None), bool)
+            if isinstance(subject, plain) and isinstance(want, plain):
+                return subject == want
+            r = self.compare(ast.Eq(), subject, want)
+            return bool(self.truth(r, p.value, fr))
+        if T is ast.MatchSingleton:
+            return subject is p.value
+        if T is ast.MatchAs:
+            if p.pattern is not None and not self.match_pattern(p.pattern, subject, binds, fr):
+                return False
+            if p.name is not None:
+                binds[p.name] = subject
+            return True
+        if T is ast.MatchOr:
+            for alt in p.patterns:
+                b = {}
+                if self.match_pattern(alt, subject, b, fr):
+                    binds.update(b)
+                    return True
+            return False
+        if T is ast.MatchSequence:
+            if isinstance(subject, Obj) and getattr(subject, 'record', None) is not None:
+                subject = subject.record
+            if not isinstance(subject, (list, tuple)):
+                if isinstance(subject, (Arr, Obj)):
+                    raise self.err('sequence pattern against %s' % type(subject).__name__)
+                return False
+            star = [i for i, q in enumerate(p.patterns) if isinstance(q, ast.MatchStar)]
+            vals = list(subject)
+            if star:
+                k = star[0]
+                after = len(p.patterns) - k - 1
+                if len(vals) < len(p.patterns) - 1:
+                    return False
+                parts = vals[:k] + [vals[k:len(vals) - after]] + vals[len(vals) - after:]
+            else:
+                if len(vals) != len(p.patterns):
+                    return False
+                parts = vals
+            for q, v in zip(p.patterns, parts):
+                if isinstance(q, ast.MatchStar):
+                    if q.name is not None:
+                        binds[q.name] = list(v)
+                elif not self.match_pattern(q, v, binds, fr):
+                    return False
+            return True
+        if T is ast.MatchMapping:
+            if not isinstance(subject, dict):
+                return False
+            used = []
+            for k, q in zip(p.keys, p.patterns):
+                key = self.eval(k, fr)
+                if key not in subject:
+                    return False
+                used.append(key)
+                if not self.match_pattern(q, subject[key], binds, fr):
+                    return False
+            if p.rest is not None:
+                binds[p.rest] = {k: v for k, v in subject.items() if k not in used}
+            return True
+        if T is ast.MatchClass:
+            cls = self.eval(p.cls, fr)
+            if not self.truth(self.builtins['isinstance'](subject, cls), p.cls, fr):
+                return False
+            if p.patterns:
+                if isinstance(cls, ClassRef):
+                    try:
+                        names = self.getattr(cls, '__match_args__')
+                    except InterpRaise:
+                        raise InterpTypeError('%s() accepts 0 positional sub-patterns' % cls.cls.name)
+                    if len(p.patterns) > len(names):
+                        raise InterpTypeError('%s() accepts %d positional sub-patterns' % (cls.cls.name, len(names)))
+                    for q, name in zip(p.patterns, names):
+                        if not self.match_pattern(q, self.getattr(subject, name), binds, fr):
+                            return False
+                else:
+                    # builtin types match the subject itself with their single positional sub-pattern
+                    if len(p.patterns) != 1 or not self.match_pattern(p.patterns[0], subject, binds, fr):
+                        return False
+            for name, q in zip(p.kwd_attrs, p.kwd_patterns):
+                try:
+                    v = self.getattr(subject, name)
+                except InterpRaise:
+                    return False
+                if not self.match_pattern(q, v, binds, fr):
+                    return False
+            return True
+        raise self.err('unsupported pattern %s' % T.__name__)
 
     on_except = None
 
@@ -1191,7 +1397,8 @@ class Interp(object):
                 if isinstance(v, ast.Constant):
                     parts.append(str(v.value))
                 else:
-                    parts.append(str(self.eval(v.value, fr)))
+                    parts.append(self.format_value(self.eval(v.value, fr), v.conversion,
+                                                   self.eval(v.format_spec, fr) if v.format_spec is not None else ''))
             return ''.join(parts)
         if T is ast.Slice:
             return self.eval_index(n, fr)
@@ -1202,6 +1409,32 @@ class Interp(object):
             fr.env[n.target.id] = v
             return v
         raise self.err('unsupported expression %s' % T.__name__)
+
+    def format_value(self, val, conversion, spec):
+        """one replacement field of an f-string: conversion (!r / !s / !a), then format(value, spec)"""
+        if conversion == ord('r'):
+            val = self.builtins['repr'](val)
+        elif conversion == ord('s'):
+            val = self.builtins['str'](val) if 'str' in self.builtins else str(val)
+        elif conversion == ord('a'):
+            val = ascii(self.builtins['repr'](val))
+        if isinstance(val, Arr) and val.size == 1 and spec:
+            val = val.item()
+        if isinstance(val, Fr) and not isinstance(val, bool):
+            # an exact rational stands for a float: presentation types of floats apply to its value
+            val = int(val) if (val.denominator == 1 and spec and spec[-1] in 'dxXobc') else float(val)
+            if not spec:
+                return repr(val)
+        if isinstance(val, (int, float, str, bool, complex, type(None))):
+            try:
+                return format(val, spec)
+            except (ValueError, TypeError) as exc:
+                raise InterpRaise(str(exc), type(exc).__name__)
+        if spec:
+            raise self.err('format specification %r applied to a symbolic value' % (spec,))
+        if isinstance(val, Obj) and (self.has_dunder(val, '__str__') or self.has_dunder(val, '__repr__')):
+            return self.call_dunder(val, '__str__' if self.has_dunder(val, '__str__') else '__repr__')
+        return str(val)
 
     def eval_elts(self, elts, fr):
         out = []
@@ -1351,6 +1584,13 @@ class Interp(object):
             a = ndarr.asarr(a)
         if isinstance(b, (list, tuple)) and not isinstance(a, (list, tuple, str)):
             b = ndarr.asarr(b)
+        if T is ast.MatMult:
+            a2, b2 = ndarr.asarr(a) if not isinstance(a, Arr) else a, ndarr.asarr(b) if not isinstance(b, Arr) else b
+            if a2.ndim == 0 or b2.ndim == 0:
+                raise InterpValueError("matmul: Input operand does not have enough dimensions")
+            if a2.ndim > 2 or b2.ndim > 2 or not hasattr(self.externals, 'np_dot'):
+                raise self.err('matrix product of arrays of rank %d and %d' % (a2.ndim, b2.ndim))
+            return self.externals.np_dot(a2, b2)           # for ranks 1 and 2 `@` is np.dot
         f = _SCALAR_OPS.get(T)
         if f is None:
             raise self.err('unsupported operator %s' % T.__name__)
@@ -1388,6 +1628,21 @@ class Interp(object):
                 a2 = tuple(a.record) if (isinstance(a, Obj) and getattr(a, 'record', None) is not None) else a
                 b2 = tuple(b.record) if (isinstance(b, Obj) and getattr(b, 'record', None) is not None) else b
                 return self.compare(op, a2, b2)
+        if isinstance(a, Obj) and isinstance(b, Obj) and sym in ('==', '!=') and not self.has_dunder(a, '__eq__') \
+                and any(o is not None and o.get('eq', True) for o in (c.dataclass_options() for c in a.cls.mro())):
+            # the __eq__ a @dataclass generates: same class and equal tuples of fields
+            if a.cls is not b.cls:
+                eq = False
+            else:
+                eq = True
+                for name, _d, _o in a.cls.dataclass_fields():
+                    r = self.compare(ast.Eq(), a.attrs.get(name), b.attrs.get(name))
+                    if not isinstance(r, bool):
+                        r = self.truth(r, op, Frame(None))
+                    if not r:
+                        eq = False
+                        break
+            return eq if sym == '==' else not eq
         if isinstance(a, Obj) or isinstance(b, Obj):
             dn = _CMP_DUNDER[sym]
             if isinstance(a, Obj) and self.has_dunder(a, dn[0]):
@@ -1450,7 +1705,11 @@ class Interp(object):
             except TypeError as exc:
                 raise InterpTypeError(str(exc))
 
-        def b_int(x=0, *a):
+        def b_int(x=0, *a, **kw):
+            if kw:
+                if list(kw) != ['base'] or a:
+                    raise InterpTypeError('int() got an unexpected keyword argument')
+                a = (kw['base'],)
             if isinstance(x, Arr) and x.size == 1:
                 x = x.item()
             if isinstance(x, bool):
@@ -1499,6 +1758,12 @@ class Interp(object):
                 args = [a.item() if isinstance(a, Arr) and a.size == 1 else a for a in args]
                 if not args:
                     raise InterpValueError('%s() arg is an empty sequence' % which)
+                if all(isinstance(a, str) for a in args) or all(isinstance(a, (tuple, list)) for a in args):
+                    # strings and sequences are ordered by python itself (sequences of concrete values only)
+                    try:
+                        return (min if which == 'min' else max)(args)
+                    except TypeError as exc:
+                        raise I.err('%s() of sequences: %s' % (which, exc))
                 conc = [ndarr.concrete_real(a) for a in args]
                 if all(c is not None for c in conc):
                     best = 0
@@ -1532,6 +1797,9 @@ class Interp(object):
                         return True
                 elif isinstance(c, type):
                     if isinstance(x, c):
+                        return True
+                elif isinstance(c, ExcClass):
+                    if isinstance(x, ExcValue) and c.matches(x.cls.name):
                         return True
                 elif hasattr(c, 'isinstance_'):
                     if c.isinstance_(x):
